@@ -136,6 +136,12 @@ class C06(Oracle):
                     out.append(V("C06", "moved_without_report", k, f"vehicle {vid} changed position without a move report"))
             if dd < 0:
                 out.append(V("C06", "odometer_decreased", k, f"vehicle {vid} odometer decreased"))
+            # a vehicle changes position only while travelling: judged on its actual activity when the updates began (and, for a
+            # vehicle that picked up in this step, on the activity it is in afterwards), not on what the move report claims
+            if (v1.position.geoid != v0.position.geoid or dd > 0) and after_instr is not None:
+                u_ = after_instr.get(vid)
+                if u_ is not None and act(u_) not in TRAVEL and act(v1) not in TRAVEL:
+                    out.append(V("C06", "moved_while_not_travelling", k, f"vehicle {vid} moved ({dd!r} km) while {act(u_)} -> {act(v1)}"))
             # match the recorded traversal of this vehicle: position = end of the driven part = start of the remaining part
             if vid in moves and results:
                 a1 = act(v1)
